@@ -40,7 +40,8 @@ theorem C15_delete_obj (cfg : Cfg) (record : Rec) (env : Env) (st : OpSt) :
       cases out <;> refine ⟨rfl, fun o h => ?_⟩ <;> first
         | (have h' : (Except.ok (scrub record.obj) : Except Abort Obj) = Except.ok o := h
            injection h' with h'; exact h'.symm)
-        | (exfalso; simp [throwA_run] at h)
+        | (exfalso; exact absurd (show (Except.error (Abort.err _) : Except Abort Obj) = Except.ok o from h) (by simp))
+        | (exfalso; simp [throwA_run] at h; done)
   · simp only [hcd, Bool.false_eq_true, if_false]
     exact ⟨rfl, fun o h => by simp [pure_run] at h; exact h.symm⟩
 
